@@ -952,7 +952,11 @@ pub fn merge_simple_variant(rng: &mut Rng, cfg: &Config) -> Option<Config> {
     }])
 }
 
-pub const FAIL_KINDS: &[&str] = &["syntax", "unsupported", "bad_lookahead", "unknown_class_late"];
+/// "class_then_error": TWO defects in one configuration, in this order: a class scnr has no match
+/// function for (registered while the patterns are converted, rejected only at the very end of a
+/// build) and, later, something that fails earlier in the pipeline (unsupported construct in the same
+/// or a later pattern, syntax error in a later pattern) - a build that fails half way through.
+pub const FAIL_KINDS: &[&str] = &["syntax", "unsupported", "bad_lookahead", "unknown_class_late", "class_then_error"];
 
 /// Returns a configuration derived from `base` that must fail to build.
 pub fn failing_variant(rng: &mut Rng, base: &Config, kind: &str) -> Option<Config> {
@@ -963,8 +967,37 @@ pub fn failing_variant(rng: &mut Rng, base: &Config, kind: &str) -> Option<Confi
         "unsupported" => rng.pick(&["\\bx", "a*?", "(?i)a", "^a", "a$", "a+?", "(?i:a)"]).to_string(),
         "unknown_class_late" => rng.pick(&["\\p{Foo}", "\\p{sc=Latin}", "x\\p{Bar}+", "[\\p{Foo}a]"]).to_string(),
         "bad_lookahead" => String::new(),
+        "class_then_error" => String::new(),
         _ => return None,
     };
+    if kind == "class_then_error" {
+        let class = rng.pick(&["\\p{Greek}+", "x\\p{Bar}+", "[\\p{Foo}a]", "\\p{sc=Latin}"]).to_string();
+        let late = rng.pick(&["b*?c", "a+?", "^a", "a$", "\\bx", "(?i)a", "(", "a{3,1}", "[a"]).to_string();
+        let fresh = |c: &Config, mi: usize, rng: &mut Rng| {
+            let mut t = rng.below(70);
+            while c[mi].patterns.iter().any(|p| same_type(p.token_type, t)) {
+                t = rng.below(70);
+            }
+            t
+        };
+        if rng.chance(1, 3) && !late.starts_with('(') && !late.starts_with('[') && !late.starts_with("a{") {
+            // both in one pattern, the class first
+            let t = fresh(&c, mi, rng);
+            let at = rng.below(c[mi].patterns.len() + 1);
+            c[mi].patterns.insert(at, PatternSpec { pattern: format!("{}{}", class, late), token_type: t, lookahead: None });
+        } else {
+            // the class in one pattern, the early failure in a later pattern of the same or a later mode
+            let t = fresh(&c, mi, rng);
+            let at = rng.below(c[mi].patterns.len() + 1);
+            c[mi].patterns.insert(at, PatternSpec { pattern: class, token_type: t, lookahead: None });
+            let mj = mi + rng.below(c.len() - mi);
+            let t2 = fresh(&c, mj, rng);
+            let lo = if mj == mi { at + 1 } else { 0 };
+            let at2 = lo + rng.below(c[mj].patterns.len() + 1 - lo);
+            c[mj].patterns.insert(at2, PatternSpec { pattern: late, token_type: t2, lookahead: None });
+        }
+        return Some(c);
+    }
     if kind == "bad_lookahead" {
         if c[mi].patterns.is_empty() {
             return None;
